@@ -156,7 +156,8 @@ func (r *Reader) declaredSlides() []string {
 			continue
 		}
 		if strings.HasPrefix(target, "/") {
-			target = strings.TrimPrefix(target, "/")
+			// path.Clean removes "." and ".." segments, as path.Join does below
+			target = path.Clean(strings.TrimPrefix(target, "/"))
 		} else {
 			target = path.Join("ppt", target)
 		}
